@@ -190,7 +190,7 @@ def work(args):
                     total = 99
             if total > 4:
                 # too many bytes for the exact model: try canned multi-byte witnesses natively
-                for pat in (bytes.fromhex('e282ac'), bytes.fromhex('82ace2'), bytes.fromhex('ace282'), bytes.fromhex('c3a9'), bytes.fromhex('a9c3'), bytes.fromhex('f09f9880')):
+                for pat in (bytes.fromhex('efbbbf41'), bytes.fromhex('e282ac'), bytes.fromhex('82ace2'), bytes.fromhex('ace282'), bytes.fromhex('c3a9'), bytes.fromhex('a9c3'), bytes.fromhex('f09f9880')):
                     vals = {}
                     k = 0
                     for i, n in enumerate(shape.get('lens', [])):
